@@ -24,14 +24,16 @@ theorem foldl_add_spec (L : List Info) (v : Int) (d0 : Plan) (k : String)
 theorem averageOn_spec (sorted : List Info) (need limit : Int) (p : Plan)
     (hv : Valid sorted) (hs : sorted.Pairwise (fun a b => averageLess b a = false))
     (h : averageOn sorted need limit = .ok p) :
-    ∃ l : Nat, (l : Int) = effLimit sorted limit ∧ l ≤ sorted.length ∧
+    ∃ l : Nat, (l : Int) = effLimitEach sorted limit ∧ l ≤ sorted.length ∧
       (∀ i ∈ sorted.take l, p.has i.name = true ∧ p.get i.name = need ∧ need ≤ i.cap) ∧
       (∀ j ∈ sorted.drop l, p.has j.name = false ∧ p.get j.name = 0) ∧
       (∀ k, p.has k = true → k ∈ sorted.map (·.name)) := by
   unfold averageOn at h
   simp only at h
-  have heff : effLimit sorted limit = (if limit = 0 then (sorted.length : Int) else limit) := rfl
-  generalize hL : (if limit = 0 then (sorted.length : Int) else limit) = L at h heff
+  have heff : effLimitEach sorted limit = (if limit ≤ 0 then (sorted.length : Int) else limit) := rfl
+  generalize hL : (if limit ≤ 0 then (sorted.length : Int) else limit) = L at h heff
+  have hl0 : ¬ L < 0 := by
+    rw [← hL]; split <;> omega
   split at h
   · cases h
   · rename_i hnl
@@ -41,52 +43,49 @@ theorem averageOn_spec (sorted : List Info) (need limit : Int) (p : Plan)
       split at h
       · cases h
       · rename_i hpl
-        split at h
-        · cases h
-        · rename_i hl0
-          cases h
-          have hLn : L.toNat ≤ sorted.length := by omega
-          have hnd_take : ((sorted.take L.toNat).map (·.name)).Nodup :=
-            (List.take_sublist _ _).map _ |>.nodup hv.1
-          -- monotonicity of the search predicate from sortedness
-          have hmono : ∀ i j, i ≤ j → j < sorted.length →
-              decide ((sorted.getD i default).cap < need) = true → decide ((sorted.getD j default).cap < need) = true := by
-            intro i j hij hj hi
-            rcases Nat.lt_or_eq_of_le hij with hlt | rfl
-            · have hi' : i < sorted.length := by omega
-              have := List.pairwise_iff_getElem.mp hs i j hi' hj hlt
-              simp only [averageLess, decide_eq_false_iff_not, Int.not_lt, gt_iff_lt] at this
-              simp only [List.getD_eq_getElem?_getD, List.getElem?_eq_getElem hi', List.getElem?_eq_getElem hj,
-                Option.getD_some, decide_eq_true_eq] at hi ⊢
-              omega
-            · exact hi
-          have hsp := (GoSort.search_spec sorted.length _ hmono).1
-          refine ⟨L.toNat, by rw [heff]; omega, hLn, ?_, ?_, ?_⟩
-          · intro i hi
-            have hmem : i.name ∈ (sorted.take L.toNat).map (·.name) := List.mem_map_of_mem (f := (·.name)) hi
-            obtain ⟨h1, h2⟩ := foldl_add_spec (sorted.take L.toNat) need [] i.name hnd_take
-            refine ⟨by rw [h2]; simp only [Plan.has, Bool.false_or, decide_eq_true_eq]; exact hmem, by rw [h1, if_pos hmem]; simp, ?_⟩
-            obtain ⟨idx, hidx, rfl⟩ := List.getElem_of_mem hi
-            simp only [List.length_take] at hidx
-            have hlt : idx < GoSort.search sorted.length (fun i => decide ((sorted.getD i default).cap < need)) := by omega
-            have := hsp idx hlt
-            have hidx' : idx < sorted.length := by omega
-            simp only [List.getD_eq_getElem?_getD, List.getElem?_eq_getElem hidx', Option.getD_some,
-              decide_eq_false_iff_not, Int.not_lt] at this
-            simpa [List.getElem_take] using this
-          · intro j hj
-            have hnm : j.name ∉ (sorted.take L.toNat).map (·.name) := by
-              intro hm
-              have hnd := hv.1
-              rw [← List.take_append_drop L.toNat sorted, List.map_append, List.nodup_append] at hnd
-              exact hnd.2.2 _ hm _ (List.mem_map_of_mem (f := (·.name)) hj) rfl
-            obtain ⟨h1, h2⟩ := foldl_add_spec (sorted.take L.toNat) need [] j.name hnd_take
-            exact ⟨by rw [h2]; simp only [Plan.has, Bool.false_or, decide_eq_false_iff_not]; exact hnm, by rw [h1, if_neg hnm]; simp⟩
-          · intro k hk
-            obtain ⟨_, h2⟩ := foldl_add_spec (sorted.take L.toNat) need [] k hnd_take
-            rw [h2] at hk
-            simp only [Plan.has, Bool.false_or, decide_eq_true_eq] at hk
-            obtain ⟨x, hx, rfl⟩ := List.mem_map.mp hk
-            exact List.mem_map_of_mem (f := (·.name)) (List.mem_of_mem_take hx)
+        cases h
+        have hLn : L.toNat ≤ sorted.length := by omega
+        have hnd_take : ((sorted.take L.toNat).map (·.name)).Nodup :=
+          (List.take_sublist _ _).map _ |>.nodup hv.1
+        -- monotonicity of the search predicate from sortedness
+        have hmono : ∀ i j, i ≤ j → j < sorted.length →
+            decide ((sorted.getD i default).cap < need) = true → decide ((sorted.getD j default).cap < need) = true := by
+          intro i j hij hj hi
+          rcases Nat.lt_or_eq_of_le hij with hlt | rfl
+          · have hi' : i < sorted.length := by omega
+            have := List.pairwise_iff_getElem.mp hs i j hi' hj hlt
+            simp only [averageLess, decide_eq_false_iff_not, Int.not_lt, gt_iff_lt] at this
+            simp only [List.getD_eq_getElem?_getD, List.getElem?_eq_getElem hi', List.getElem?_eq_getElem hj,
+              Option.getD_some, decide_eq_true_eq] at hi ⊢
+            omega
+          · exact hi
+        have hsp := (GoSort.search_spec sorted.length _ hmono).1
+        refine ⟨L.toNat, by rw [heff]; omega, hLn, ?_, ?_, ?_⟩
+        · intro i hi
+          have hmem : i.name ∈ (sorted.take L.toNat).map (·.name) := List.mem_map_of_mem (f := (·.name)) hi
+          obtain ⟨h1, h2⟩ := foldl_add_spec (sorted.take L.toNat) need [] i.name hnd_take
+          refine ⟨by rw [h2]; simp only [Plan.has, Bool.false_or, decide_eq_true_eq]; exact hmem, by rw [h1, if_pos hmem]; simp, ?_⟩
+          obtain ⟨idx, hidx, rfl⟩ := List.getElem_of_mem hi
+          simp only [List.length_take] at hidx
+          have hlt : idx < GoSort.search sorted.length (fun i => decide ((sorted.getD i default).cap < need)) := by omega
+          have := hsp idx hlt
+          have hidx' : idx < sorted.length := by omega
+          simp only [List.getD_eq_getElem?_getD, List.getElem?_eq_getElem hidx', Option.getD_some,
+            decide_eq_false_iff_not, Int.not_lt] at this
+          simpa [List.getElem_take] using this
+        · intro j hj
+          have hnm : j.name ∉ (sorted.take L.toNat).map (·.name) := by
+            intro hm
+            have hnd := hv.1
+            rw [← List.take_append_drop L.toNat sorted, List.map_append, List.nodup_append] at hnd
+            exact hnd.2.2 _ hm _ (List.mem_map_of_mem (f := (·.name)) hj) rfl
+          obtain ⟨h1, h2⟩ := foldl_add_spec (sorted.take L.toNat) need [] j.name hnd_take
+          exact ⟨by rw [h2]; simp only [Plan.has, Bool.false_or, decide_eq_false_iff_not]; exact hnm, by rw [h1, if_neg hnm]; simp⟩
+        · intro k hk
+          obtain ⟨_, h2⟩ := foldl_add_spec (sorted.take L.toNat) need [] k hnd_take
+          rw [h2] at hk
+          simp only [Plan.has, Bool.false_or, decide_eq_true_eq] at hk
+          obtain ⟨x, hx, rfl⟩ := List.mem_map.mp hk
+          exact List.mem_map_of_mem (f := (·.name)) (List.mem_of_mem_take hx)
 
 end Eru.Strategy
